@@ -262,6 +262,6 @@ def _make(rng, w, dst, inner=False):
             c.protocol = 53
             c.user_data = b"g"
             chunks.append(bytes(c))
-    if tag != t._local_verification_tag:
-        forging = False      # wrong tag: must be ignored altogether
+    if tag != t._local_verification_tag and kind != 11:
+        forging = False      # wrong tag: must be ignored altogether (an INIT legitimately carries tag 0)
     return crc_packet(m, 5000, 5000, tag, b"".join(chunks)), forging
